@@ -509,76 +509,6 @@ func (w *ssWorld[E]) exec(r failer, f []string) string {
 
 // endregion
 
-// region EvictionState ////////////////////////////////////////////////////////////////////////////////////////////
-
-type evWorld struct {
-	state   reactive.EvictionState[int]
-	held    map[int]reactive.Event
-	evicted bool
-	last    int
-}
-
-func newEVWorld() *evWorld {
-	return &evWorld{state: reactive.NewEvictionState[int](), held: map[int]reactive.Event{}}
-}
-
-func (w *evWorld) exec(r failer, f []string) string {
-	ans := ""
-	switch f[0] {
-	case "new":
-		return "ok"
-	case "event":
-		slot := atoi(f[1])
-		ev := w.state.EvictionEvent(slot)
-		switch prev, ok := w.held[slot]; {
-		case ev.WasTriggered():
-			ans = "pre"
-			if w.evicted && slot <= w.last {
-				break
-			}
-			r.Fail("eviction", fmt.Sprintf("EvictionEvent(%d) is already triggered although the last evicted slot is %d (evicted=%v)", slot, w.last, w.evicted),
-				map[string]string{"construct": "EvictionState", "trigger": "event", "mode": "sequential"})
-		case !ok:
-			w.held[slot] = ev
-			ans = "held new"
-		case prev == ev:
-			ans = "held same"
-		default:
-			ans = "held other"
-		}
-	case "evict":
-		slot := atoi(f[1])
-		before := map[int]bool{}
-		for s, ev := range w.held {
-			before[s] = ev.WasTriggered()
-		}
-		w.state.Evict(slot)
-		if !w.evicted || slot > w.last {
-			w.evicted, w.last = true, slot
-		}
-		var fired []int
-		for s, ev := range w.held {
-			if ev.WasTriggered() && !before[s] {
-				fired = append(fired, s)
-			}
-		}
-		sort.Ints(fired)
-		ans = fmt.Sprintf("%s last=%d", showList(fired), w.state.LastEvictedSlot())
-	default:
-		return "bad-op"
-	}
-	for s, ev := range w.held {
-		if want := w.evicted && s <= w.last; ev.WasTriggered() != want {
-			r.Fail("eviction", fmt.Sprintf("after %q the event of slot %d has triggered=%v but the last evicted slot is %d (evicted=%v)", strings.Join(f, " "), s, ev.WasTriggered(), w.last, w.evicted),
-				map[string]string{"construct": "EvictionState", "trigger": f[0], "mode": "sequential"})
-		}
-	}
-
-	return ans
-}
-
-// endregion
-
 // region WaitGroup ////////////////////////////////////////////////////////////////////////////////////////////////
 
 type wgWorld struct {
